@@ -25,20 +25,7 @@ Definition spec_cmpop (o : cmpop) : string :=
   | C_Is => "is" | C_IsNot => "is not" | C_In => "in" | C_NotIn => "not in"
   end.
 
-(* ---------- precedence levels (Python grammar, numbering of ast._Precedence) ---------- *)
-Definition P_GENEXP := 0.   (* a bare generator expression: never allowed without parentheses except as sole call argument *)
-Definition P_YIELD := 3.
-Definition P_TEST := 4.
-Definition P_OR := 5.
-Definition P_AND := 6.
-Definition P_NOT := 7.
-Definition P_CMP := 8.
-Definition P_BOR := 9.
-Definition P_FACTOR := 15.
-Definition P_POWER := 16.
-Definition P_AWAIT := 17.
-Definition P_ATOM := 18.
-
+(* ---------- precedence of the source forms (levels: Model/C03_expr.v) ---------- *)
 Definition binop_prec (o : binop) : nat :=
   match o with
   | B_BitOr => 9 | B_BitXor => 10 | B_BitAnd => 11 | B_LShift | B_RShift => 12 | B_Add | B_Sub => 13
@@ -50,11 +37,11 @@ Definition binop_rreq (o : binop) : nat := match o with B_Pow => P_FACTOR | _ =>
 Definition boolop_prec (o : boolop) : nat := match o with L_Or => P_OR | L_And => P_AND end.
 Definition unop_prec (o : unop) : nat := match o with U_Not => P_NOT | _ => P_FACTOR end.
 
-(* precedence of the form an expression is printed in (tuples, walrus and displays print their own brackets) *)
+(* precedence of the form an expression is printed in (tuples, walrus, displays and generator expressions print their
+   own brackets) *)
 Fixpoint prec (e : pyexpr) : nat :=
   match e with
   | PParsed p => prec p
-  | PGeneratorExp _ _ => P_GENEXP
   | PYield _ | PYieldFrom _ => P_YIELD
   | PLambda _ _ _ _ _ _ | PIfExp _ _ _ => P_TEST
   | PBoolOp o _ => boolop_prec o
@@ -70,18 +57,11 @@ Definition paren_if (b : bool) (s : string) : string := if b then "(" ++ s ++ ")
 Fixpoint is_int_lit (e : pyexpr) : bool :=
   match e with PNum true _ => true | PParsed p => is_int_lit p | _ => false end.
 
-Definition call_req (args kws : list pyexpr) : nat :=
-  match args, kws with [PGeneratorExp _ _], [] => P_GENEXP | _, _ => P_TEST end.
-
-Definition starts_brace (s : string) : bool :=
-  match s with String c _ => Ascii.eqb c "{"%char | EmptyString => false end.
-
-Fixpoint esc_braces (s : string) : string :=
-  match s with
-  | EmptyString => EmptyString
-  | String c r => if Ascii.eqb c "{"%char || Ascii.eqb c "}"%char then String c (String c (esc_braces r))
-                  else String c (esc_braces r)
-  end.
+(* a generator expression that is the only argument of a call shares the call's parentheses *)
+Fixpoint is_genexp_src (e : pyexpr) : bool :=
+  match e with PGeneratorExp _ _ => true | PParsed p => is_genexp_src p | _ => false end.
+Definition sole_genexp (all : list pyexpr) : bool :=
+  match all with [a] => is_genexp_src a | _ => false end.
 
 Definition optstr {A} (f : A -> string) (o : option A) : string := match o with Some a => f a | None => "" end.
 
@@ -91,6 +71,9 @@ Open Scope string_scope.
 Fixpoint rprint (direct : bool) (e : pyexpr) {struct e} : string :=
   let ra := fun (req : nat) (c : pyexpr) => paren_if (Nat.ltb (prec c) req) (rprint false c) in
   let gens_s := fun (gens : list pyexpr) => sjoin " " (map (rprint false) gens) in
+  (* the pieces of an f-string (or of a format spec): literal text escaped, replacement fields printed *)
+  let fparts := fun (vs : list pyexpr) =>
+    sconcat (map (fun c => match c with PStr _ raw _ => fesc raw | _ => rprint false c end) vs) in
   match e with
   | PName id => id
   | PNum isint r => num_text isint r
@@ -104,7 +87,9 @@ Fixpoint rprint (direct : bool) (e : pyexpr) {struct e} : string :=
   | PCompare l ops cs =>
       ra P_BOR l ++ sconcat (map (fun oc : cmpop * string => (" " ++ spec_cmpop (fst oc) ++ " " ++ snd oc)%string) (combine ops (map (ra P_BOR) cs)))
   | PCall f args kws =>
-      ra P_ATOM f ++ "(" ++ sjoin ", " (map (ra (call_req args kws)) args ++ map (rprint false) kws)%list ++ ")"
+      ra P_ATOM f ++
+      (if sole_genexp (args ++ kws)%list then sconcat (map (rprint false) args ++ map (rprint false) kws)%list
+       else "(" ++ sjoin ", " (map (ra P_TEST) args ++ map (ra P_TEST) kws)%list ++ ")")
   | PKeyword None v => "**" ++ ra P_TEST v
   | PKeyword (Some n) v => n ++ "=" ++ ra P_TEST v
   | PSubscript v _ sl => ra P_ATOM v ++ "[" ++ paren_if (Nat.ltb (prec sl) P_TEST) (rprint true sl) ++ "]"
@@ -125,19 +110,25 @@ Fixpoint rprint (direct : bool) (e : pyexpr) {struct e} : string :=
                      ++ map (rprint false) ko ++ (match vk with Some n => [("**" ++ n)%string] | None => [] end))%list in
       "lambda" ++ (if is_nil entries then "" else " " ++ sjoin ", " entries) ++ ": " ++ ra P_TEST body
   | PParam n d => n ++ (match d with Some d' => "=" ++ ra P_TEST d' | None => "" end)
-  | PNamedExpr t v => "(" ++ rprint false t ++ " := " ++ ra P_TEST v ++ ")"
+  | PNamedExpr t v => "(" ++ ra P_ATOM t ++ " := " ++ ra P_TEST v ++ ")"
   | PStarred v => "*" ++ ra P_BOR v
   | PListComp e gens => "[" ++ ra P_TEST e ++ " " ++ gens_s gens ++ "]"
   | PSetComp e gens => "{" ++ ra P_TEST e ++ " " ++ gens_s gens ++ "}"
-  | PGeneratorExp e gens => ra P_TEST e ++ " " ++ gens_s gens
+  | PGeneratorExp e gens => "(" ++ ra P_TEST e ++ " " ++ gens_s gens ++ ")"
   | PDictComp k v gens => "{" ++ ra P_TEST k ++ ": " ++ ra P_TEST v ++ " " ++ gens_s gens ++ "}"
   | PComprehension t it ifs a =>
       (if a then "async " else "") ++ "for " ++ ra P_BOR t ++ " in " ++ ra P_OR it
       ++ sconcat (map (fun c => (" if " ++ ra P_OR c)%string) ifs)
-  | PJoinedStr vs =>
-      "f'" ++ sconcat (map (fun c => match c with PStr _ raw _ => esc_braces raw | _ => rprint false c end) vs) ++ "'"
-  | PFormattedValue v _ _ =>
-      let s := ra P_OR v in "{" ++ (if starts_brace s then " " else "") ++ s ++ "}"
+  | PJoinedStr vs => "f'" ++ fparts vs ++ "'"
+  | PFormattedValue v conv spec =>
+      let s := ra P_OR v in
+      "{" ++ (if starts_brace s then " " else "") ++ s ++ conv_text conv
+      ++ (match spec with
+          | Some (PJoinedStr vs) => ":" ++ fparts vs
+          | Some o => ":" ++ rprint false o
+          | None => ""
+          end)
+      ++ "}"
   | PYield v => "yield" ++ (match v with Some c => " " ++ ra P_TEST c | None => "" end)
   | PYieldFrom v => "yield from " ++ ra P_TEST v
   | PAwait v => "await " ++ ra P_ATOM v
@@ -147,7 +138,7 @@ Open Scope list_scope. Open Scope nat_scope.
 Definition ref_at (req : nat) (c : pyexpr) : string := paren_if (Nat.ltb (prec c) req) (rprint false c).
 
 (* ---------- known-gap classifier ---------- *)
-Definition G_GROUP := 1.      (* an operand needs grouping parentheses that Griffe never writes *)
+Definition G_GROUP := 1.      (* an operand needs grouping parentheses that Griffe does not write *)
 Definition G_FSTRING := 3.
 Definition G_LAMBDA := 4.
 Definition G_GENEXP := 6.
@@ -159,15 +150,14 @@ Definition G_AWAIT := 10.
 Fixpoint fam (e : pyexpr) : nat :=
   match e with
   | PParsed p => fam p
-  | PGeneratorExp _ _ => G_GENEXP
   | PYield _ | PYieldFrom _ => G_YIELD
   | _ => G_GROUP
   end.
 
-Definition need (req : nat) (c : pyexpr) : list nat := if prec c <? req then [fam c] else [].
+(* the position requires precedence req: a gap at the top of a stored expression (nothing there can write parentheses) *)
+Definition need_top (req : nat) (c : pyexpr) : list nat := if prec c <? req then [fam c] else [].
 
-(* characters Griffe would have to escape in the literal part of an f-string ({ } are escaped by [rprint], the others
-   put the literal outside what [rprint] prints: see ref_unsupported) *)
+(* characters Griffe has to escape in the literal part of an f-string *)
 Fixpoint has_brace (s : string) : bool :=
   match s with
   | EmptyString => false
@@ -177,33 +167,141 @@ Fixpoint has_unsafe (s : string) : bool :=
   match s with
   | EmptyString => false
   | String c r => let n := nat_of_ascii c in
-                  (n <? 32) || (126 <? n) || (n =? 39) || (n =? 92) || has_unsafe r
+                  (n <? 32) || (n =? 127) || (n =? 39) || (n =? 92) || has_unsafe r
   end.
 
 Definition lambda_gap (po pk : list pyexpr) (vp : option string) (ko : list pyexpr) : bool :=
   (negb (is_nil po) && is_nil pk) || (match vp with Some _ => negb (is_nil ko) | None => false end).
+
+Definition is_joined (e : pyexpr) : bool := match e with PJoinedStr _ => true | _ => false end.
+
+Definition is_name_or_attr_src (e : pyexpr) : bool :=
+  match e with PName _ | PAttribute _ _ => true | _ => false end.
+
+(* ---------- what a subscripted value denotes: dotted chain of names resolved through the module's imports ---------- *)
+Fixpoint src_canon (env : nenv) (e : pyexpr) : option string :=
+  match e with
+  | PName id => Some (resolve env id)
+  | PAttribute v a => match src_canon env v with Some p => Some (p ++ "." ++ a)%string | None => None end
+  | _ => None
+  end.
+Definition src_is_literal (env : nenv) (v : pyexpr) : bool :=
+  match src_canon env v with Some p => is_literal_path p | None => false end.
+
+(* the path the unrepaired _build_subscript computes for a chain whose root is not a name: the root is forgotten *)
+Fixpoint quirk_canon (e : pyexpr) : option string :=
+  match e with
+  | PAttribute v a =>
+      match v with
+      | PName _ => None
+      | PAttribute _ _ => match quirk_canon v with Some p => Some (p ++ "." ++ a)%string | None => None end
+      | PNum _ _ | PConst _ | PStr _ _ _ => Some ("str." ++ a)%string
+      | _ => Some a
+      end
+  | _ => None
+  end.
+Definition quirk_literal (v : pyexpr) : bool :=
+  match quirk_canon v with Some p => is_literal_path p | None => false end.
+
+(* source trees handed to [build] by the abstraction contain no PParsed; litroot = the repair of finding F14 is present:
+   without it no subscripted value may be a chain with a non-name root that spells typing.Literal (the unrepaired
+   _build_subscript takes it for Literal) *)
+Fixpoint rule_ok (litroot : bool) (e : pyexpr) {struct e} : bool :=
+  let np := rule_ok litroot in
+  let no := fun (o : option pyexpr) => match o with Some c => np c | None => true end in
+  match e with
+  | PName _ | PNum _ _ | PConst _ => true
+  | PStr _ _ p => no p
+  | PParsed _ => false
+  | PAttribute v _ | PUnaryOp _ v | PKeyword _ v | PStarred v | PYieldFrom v | PAwait v => np v
+  | PBinOp l _ r => np l && np r
+  | PBoolOp _ vs | PTuple vs | PList vs | PSet vs | PJoinedStr vs | PDict vs => forallb np vs
+  | PCompare l _ cs => np l && forallb np cs
+  | PCall f args kws => np f && forallb np args && forallb np kws
+  | PSubscript v _ sl => (litroot || negb (quirk_literal v)) && np v && np sl
+  | PSlice lo up st => no lo && no up && no st
+  | PDictItem k v => no k && np v
+  | PIfExp b t o => np b && np t && np o
+  | PLambda po pk _ ko _ body => forallb np po && forallb np pk && forallb np ko && np body
+  | PParam _ d => no d
+  | PNamedExpr t v => np t && np v
+  | PListComp e gens | PSetComp e gens | PGeneratorExp e gens => np e && forallb np gens
+  | PDictComp k v gens => np k && np v && forallb np gens
+  | PComprehension t it ifs _ => np t && np it && forallb np ifs
+  | PFormattedValue v _ spec => np v && no spec
+  | PYield v => no v
+  end.
+(* no PParsed (rule_ok with the repair) *)
+Definition no_parsed (e : pyexpr) : bool := rule_ok true e.
+
+(* the abstraction's own Literal flags agree with the resolution of the model (oracle tie: two statements of one rule) *)
+Fixpoint lits_agree (env : nenv) (e : pyexpr) {struct e} : bool :=
+  let d := lits_agree env in
+  let dopt := fun (o : option pyexpr) => match o with Some c => d c | None => true end in
+  match e with
+  | PName _ | PNum _ _ | PConst _ => true
+  | PStr _ _ p => dopt p
+  | PParsed p => d p
+  | PSubscript v lit sl => Bool.eqb lit (src_is_literal env v) && d v && d sl
+  | PAttribute v _ | PUnaryOp _ v | PKeyword _ v | PStarred v | PYieldFrom v | PAwait v => d v
+  | PBinOp l _ r => d l && d r
+  | PBoolOp _ vs | PTuple vs | PList vs | PSet vs | PDict vs | PJoinedStr vs => forallb d vs
+  | PCompare l _ cs => d l && forallb d cs
+  | PCall f args kws => d f && forallb d args && forallb d kws
+  | PSlice lo up st => dopt lo && dopt up && dopt st
+  | PDictItem k v => dopt k && d v
+  | PIfExp b t o => d b && d t && d o
+  | PLambda po pk _ ko _ body => forallb d po && forallb d pk && forallb d ko && d body
+  | PParam _ dd => dopt dd
+  | PNamedExpr t v => d t && d v
+  | PListComp e1 gens | PSetComp e1 gens | PGeneratorExp e1 gens => d e1 && forallb d gens
+  | PDictComp k v gens => d k && d v && forallb d gens
+  | PComprehension t it ifs _ => d t && d it && forallb d ifs
+  | PFormattedValue v _ spec => d v && dopt spec
+  | PYield v => dopt v
+  end.
+
+Section WithFixes.
+Variable fx : fixes.
+Variable env : nenv.
+
+(* an operand of lower precedence than its slot requires: a gap unless operands are parenthesised by precedence *)
+Definition need (req : nat) (c : pyexpr) : list nat := if fx_prec fx then [] else need_top req c.
 
 (* the flags mirror the ones [build] threads: insub / injoin / infmt; direct as in [rprint] *)
 Fixpoint gaps (direct isub ijoin ifmt : bool) (e : pyexpr) {struct e} : list nat :=
   let g1 := gaps false false ijoin ifmt in
   let ga := fun (req : nat) (c : pyexpr) => need req c ++ g1 c in
   let go := fun (req : nat) (o : option pyexpr) => match o with Some c => ga req c | None => [] end in
+  (* pieces of an f-string or of a format spec; nfmt = the in_formatted_str flag its pieces are built with *)
+  let fparts := fun (nfmt : bool) (vs : list pyexpr) =>
+    flat_map (fun c => match c with
+                       | PStr _ raw _ =>
+                           if nfmt || (negb (fx_fesc fx) && (has_brace raw || has_unsafe raw)) then [G_FSTRING] else []
+                       | PParsed _ => [G_FSTRING]   (* literal text of a nested f-string taken for code *)
+                       | _ => gaps false false true nfmt c
+                       end) vs in
   match e with
   | PName _ | PConst _ | PNum _ _ => []
   | PStr _ _ _ => if ijoin && negb ifmt then [G_FSTRING] else []
   | PParsed p => gaps direct isub false false p
-  | PAttribute v _ => ga P_ATOM v ++ (if is_int_lit v then [G_INT_ATTR] else [])
+  | PAttribute v _ => ga P_ATOM v ++ (if is_int_lit v && negb (fx_intattr fx) then [G_INT_ATTR] else [])
   | PBinOp l o r => ga (binop_lreq o) l ++ ga (binop_rreq o) r
   | PBoolOp o vs => flat_map (ga (S (boolop_prec o))) vs
   | PUnaryOp o v => ga (unop_prec o) v
   | PCompare l _ cs => ga P_BOR l ++ flat_map (ga P_BOR) cs
-  | PCall f args kws => ga P_ATOM f ++ flat_map (ga (call_req args kws)) args ++ flat_map g1 kws
+  | PCall f args kws =>
+      ga P_ATOM f ++
+      (if sole_genexp (args ++ kws)
+       then flat_map (fun a => if fx_genexp fx then g1 a else tl (g1 a)) args      (* it shares the call's parentheses *)
+            ++ flat_map (fun a => if fx_genexp fx then g1 a else tl (g1 a)) kws
+       else flat_map (ga P_TEST) args ++ flat_map (ga P_TEST) kws)
   | PKeyword _ v => ga P_TEST v
   | PSubscript v _ sl =>
       need P_ATOM v ++ gaps false false ijoin ifmt v ++ need P_TEST sl ++ gaps true true ijoin ifmt sl
   | PSlice lo up st => go P_TEST lo ++ go P_TEST up ++ go P_TEST st
   | PTuple es =>
-      (if direct && is_nil es then [G_EMPTY_SLICE_TUPLE] else [])
+      (if direct && is_nil es && negb (fx_tuple0 fx) then [G_EMPTY_SLICE_TUPLE] else [])
       ++ flat_map (fun c => need P_TEST c ++ gaps false false ijoin ifmt c) es
   | PList es | PSet es => flat_map (ga P_TEST) es
   | PDict items => flat_map g1 items
@@ -211,24 +309,27 @@ Fixpoint gaps (direct isub ijoin ifmt : bool) (e : pyexpr) {struct e} : list nat
   | PDictItem (Some k) v => ga P_TEST k ++ ga P_TEST v
   | PIfExp b t o => ga P_OR b ++ ga P_OR t ++ ga P_TEST o
   | PLambda po pk vp ko _ body =>
-      (if lambda_gap po pk vp ko then [G_LAMBDA] else [])
+      (if lambda_gap po pk vp ko && negb (fx_lambda fx) then [G_LAMBDA] else [])
       ++ flat_map g1 po ++ flat_map g1 pk ++ flat_map g1 ko ++ ga P_TEST body
   | PParam _ d => match d with Some c => need P_TEST c ++ gaps false false false false c | None => [] end
-  | PNamedExpr t v => g1 t ++ ga P_TEST v
+  | PNamedExpr t v => ga P_ATOM t ++ ga P_TEST v
   | PStarred v => ga P_BOR v
-  | PListComp e gens | PSetComp e gens | PGeneratorExp e gens => ga P_TEST e ++ flat_map g1 gens
+  | PListComp e gens | PSetComp e gens => ga P_TEST e ++ flat_map g1 gens
+  | PGeneratorExp e gens => (if fx_genexp fx then [] else [G_GENEXP]) ++ ga P_TEST e ++ flat_map g1 gens
   | PDictComp k v gens => ga P_TEST k ++ ga P_TEST v ++ flat_map g1 gens
   | PComprehension t it ifs _ => ga P_BOR t ++ ga P_OR it ++ flat_map (ga P_OR) ifs
-  | PJoinedStr vs =>
-      flat_map (fun c => match c with
-                         | PStr _ raw _ => if ifmt || has_brace raw || has_unsafe raw then [G_FSTRING] else []
-                         | PParsed _ => [G_FSTRING]   (* literal text of a nested f-string taken for code *)
-                         | _ => gaps false false true ifmt c
-                         end) vs
+  | PJoinedStr vs => fparts (if fx_fnest fx then false else ifmt) vs
   | PFormattedValue v conv spec =>
-      (if negb (conv =? -1)%Z || (match spec with Some _ => true | None => false end) then [G_FSTRING] else [])
-      ++ (if starts_brace (ref_at P_OR v) then [G_FSTRING] else [])
+      (if negb (fx_fconv fx) && (negb (conv =? -1)%Z || (match spec with Some _ => true | None => false end)) then [G_FSTRING] else [])
+      ++ (if negb (fx_fglue fx) && starts_brace (ref_at P_OR v) then [G_FSTRING] else [])
       ++ need P_OR v ++ gaps false false ijoin true v
+      ++ (if fx_fconv fx then
+            match spec with
+            | Some (PJoinedStr vs) => fparts false vs
+            | Some o => [G_FSTRING]
+            | None => []
+            end
+          else [])
   | PYield v => go P_TEST v
   | PYieldFrom v => ga P_TEST v
   | PAwait v => G_AWAIT :: ga P_ATOM v
@@ -236,11 +337,97 @@ Fixpoint gaps (direct isub ijoin ifmt : bool) (e : pyexpr) {struct e} : list nat
 
 (* top: minimal precedence of the position the expression is stored from:
    P_YIELD for the right-hand side of an assignment, P_TEST for annotations, defaults, decorators, base classes *)
-Definition gaps_top (top : nat) (e : pyexpr) : list nat := need top e ++ gaps false false false false e.
+Definition gaps_top (top : nat) (e : pyexpr) : list nat := need_top top e ++ gaps false false false false e.
 Definition known_gap (top : nat) (e : pyexpr) : bool := negb (is_nil (gaps_top top e)).
+
+(* ---------- the string-annotation rule, declaratively ---------- *)
+(* m: are strings code here (Parse false), code-but-under-Literal (Parse true) or data (NoParse);
+   ijoin/ifmt: inside an f-string / inside a replacement field of one *)
+Fixpoint subst (m : pmode) (ijoin ifmt : bool) (e : pyexpr) {struct e} : pyexpr :=
+  let s := subst m ijoin ifmt in
+  let so := fun (o : option pyexpr) => match o with Some c => Some (s c) | None => None end in
+  match e with
+  | PName _ | PNum _ _ | PConst _ | PParsed _ => e
+  | PStr _ _ parsed =>
+      if ijoin && negb ifmt then e
+      else match m, parsed with Parse false, Some p => PParsed p | _, _ => e end
+  | PAttribute v a => PAttribute (s v) a
+  | PBinOp l o r => PBinOp (s l) o (s r)
+  | PBoolOp o vs => PBoolOp o (map s vs)
+  | PUnaryOp o v => PUnaryOp o (s v)
+  | PCompare l ops cs => PCompare (s l) ops (map s cs)
+  | PCall f args kws => PCall (s f) (map s args) (map s kws)
+  | PKeyword n v => PKeyword n (s v)
+  | PSubscript v lit sl =>
+      (* the subscripted value is never parsed; the slice is, unless the value is a chain of names that the module's
+         imports resolve to typing.Literal / typing_extensions.Literal (sticky) *)
+      let m' := match m with
+                | NoParse => NoParse
+                | Parse l0 => Parse (l0 || src_is_literal env v)
+                end in
+      PSubscript v lit (subst m' ijoin ifmt sl)
+  | PSlice lo up st => PSlice (so lo) (so up) (so st)
+  | PTuple es => PTuple (map s es)
+  | PList es => PList (map s es)
+  | PSet es => PSet (map s es)
+  | PDict items => PDict (map s items)
+  | PDictItem k v => PDictItem (so k) (s v)
+  | PIfExp b t o => PIfExp (s b) (s t) (s o)
+  | PLambda po pk vp ko vk body => PLambda po pk vp ko vk (s body)     (* defaults are never parsed *)
+  | PParam _ _ => e
+  | PNamedExpr t v => PNamedExpr (s t) (s v)
+  | PStarred v => PStarred (s v)
+  | PListComp e1 gens => PListComp (s e1) (map s gens)
+  | PSetComp e1 gens => PSetComp (s e1) (map s gens)
+  | PGeneratorExp e1 gens => PGeneratorExp (s e1) (map s gens)
+  | PDictComp k v gens => PDictComp (s k) (s v) (map s gens)
+  | PComprehension t it ifs a => PComprehension (s t) (s it) (map s ifs) a
+  | PJoinedStr vs => PJoinedStr (map (subst m true (if fx_fnest fx then false else ifmt)) vs)
+  | PFormattedValue v conv spec =>
+      PFormattedValue (subst m ijoin true v) conv
+        (if fx_fconv fx then match spec with Some sp => Some (subst m ijoin false sp) | None => None end else spec)
+  | PYield v => PYield (so v)
+  | PYieldFrom v => PYieldFrom (s v)
+  | PAwait v => PAwait (s v)
+  end.
+
+(* scan false e: e contains an await (no builder: _build raises);
+   scan true e:  ... or a format spec that is not stored, i.e. some sub-expression is dropped *)
+Fixpoint scan (sc : bool) (e : pyexpr) {struct e} : bool :=
+  let d := scan sc in
+  let dopt := fun (o : option pyexpr) => match o with Some c => d c | None => false end in
+  match e with
+  | PName _ | PNum _ _ | PConst _ | PStr _ _ _ => false
+  | PParsed p => d p
+  | PAwait _ => true
+  | PAttribute v _ | PUnaryOp _ v | PKeyword _ v | PStarred v | PYieldFrom v => d v
+  | PBinOp l _ r => d l || d r
+  | PBoolOp _ vs | PTuple vs | PList vs | PSet vs | PDict vs | PJoinedStr vs => existsb d vs
+  | PCompare l _ cs => d l || existsb d cs
+  | PCall f args kws => d f || existsb d args || existsb d kws
+  | PSubscript v _ sl => d v || d sl
+  | PSlice lo up st => dopt lo || dopt up || dopt st
+  | PDictItem k v => dopt k || d v
+  | PIfExp b t o => d b || d t || d o
+  | PLambda po pk _ ko _ body => existsb d po || existsb d pk || existsb d ko || d body
+  | PParam _ dd => dopt dd
+  | PNamedExpr t v => d t || d v
+  | PListComp e1 gens | PSetComp e1 gens | PGeneratorExp e1 gens => d e1 || existsb d gens
+  | PDictComp k v gens => d k || d v || existsb d gens
+  | PComprehension t it ifs _ => d t || d it || existsb d ifs
+  | PFormattedValue v _ spec =>
+      d v || (if fx_fconv fx then dopt spec else sc && match spec with Some _ => true | None => false end)
+  | PYield v => dopt v
+  end.
+Definition has_await (e : pyexpr) : bool := scan false e.
+Definition drops (e : pyexpr) : bool := scan true e.
+
+End WithFixes.
+
 Definition ref_top (top : nat) (e : pyexpr) : string := ref_at top e.
 
-(* what [rprint] does not claim to print: f-string conversions / format specs and literal text needing escapes *)
+(* what the harness's expected tree does not follow: literal text of an f-string nested in a replacement field that the
+   unrepaired builder takes for a string annotation *)
 Fixpoint ref_unsupported (e : pyexpr) {struct e} : bool :=
   let ro := fun (o : option pyexpr) => match o with Some c => ref_unsupported c | None => false end in
   match e with
@@ -262,15 +449,15 @@ Fixpoint ref_unsupported (e : pyexpr) {struct e} : bool :=
   | PListComp e gens | PSetComp e gens | PGeneratorExp e gens => ref_unsupported e || existsb ref_unsupported gens
   | PDictComp k v gens => ref_unsupported k || ref_unsupported v || existsb ref_unsupported gens
   | PComprehension t it ifs _ => ref_unsupported t || ref_unsupported it || existsb ref_unsupported ifs
-  | PJoinedStr vs =>
-      existsb (fun c => match c with PStr _ raw _ => has_unsafe raw | PParsed _ => true | _ => ref_unsupported c end) vs
-  | PFormattedValue v conv spec =>
-      negb (conv =? -1)%Z || (match spec with Some _ => true | None => false end) || ref_unsupported v
+  | PJoinedStr vs => existsb (fun c => match c with PParsed _ => true | _ => ref_unsupported c end) vs
+  | PFormattedValue v _ spec => ref_unsupported v || ro spec
   | PYield v => ro v
   end.
 
-(* ---------- well-formedness: pseudo-nodes only where the abstraction puts them ---------- *)
+(* ---------- well-formedness: pseudo-nodes only where the abstraction puts them; constant spellings look like reprs ---------- *)
 Inductive poskind := KExpr | KItem | KParam.
+
+Definition conv_ok (z : Z) : bool := (z =? -1)%Z || (z =? 97)%Z || (z =? 114)%Z || (z =? 115)%Z.
 
 Fixpoint wfk (k : poskind) (e : pyexpr) {struct e} : bool :=
   let w := wfk KExpr in
@@ -281,7 +468,9 @@ Fixpoint wfk (k : poskind) (e : pyexpr) {struct e} : bool :=
   | _ =>
     (match k with KExpr => true | _ => false end) &&
     match e with
-    | PName _ | PNum _ _ | PConst _ | PStr _ _ _ => true
+    | PName _ => true
+    | PNum isint r => Bool.eqb (is_decimal (num_text isint r)) isint    (* repr of a non-negative int is its decimal digits; a float / complex repr never is *)
+    | PConst r | PStr r _ _ => negb (is_decimal r)
     | PParsed p => w p
     | PAttribute v _ | PUnaryOp _ v | PKeyword _ v | PStarred v | PYieldFrom v | PAwait v => w v
     | PBinOp l _ r => w l && w r
@@ -298,90 +487,13 @@ Fixpoint wfk (k : poskind) (e : pyexpr) {struct e} : bool :=
     | PListComp e gens | PSetComp e gens | PGeneratorExp e gens => w e && forallb w gens
     | PDictComp key v gens => w key && w v && forallb w gens
     | PComprehension t it ifs _ => w t && w it && forallb w ifs
-    | PFormattedValue v _ _ => w v
+    | PFormattedValue v conv spec =>
+        w v && conv_ok conv && wo spec && (match spec with Some sp => is_joined sp | None => true end)
     | PYield v => wo v
     | PDictItem _ _ | PParam _ _ => false
     end
   end.
 Definition wf (e : pyexpr) : bool := wfk KExpr e.
-
-(* source trees handed to [build] by the abstraction contain no PParsed *)
-Fixpoint no_parsed (e : pyexpr) {struct e} : bool :=
-  let np := no_parsed in
-  let no := fun (o : option pyexpr) => match o with Some c => np c | None => true end in
-  match e with
-  | PName _ | PNum _ _ | PConst _ => true
-  | PStr _ _ p => no p
-  | PParsed _ => false
-  | PAttribute v _ | PUnaryOp _ v | PKeyword _ v | PStarred v | PYieldFrom v | PAwait v => np v
-  | PBinOp l _ r => np l && np r
-  | PBoolOp _ vs | PTuple vs | PList vs | PSet vs | PJoinedStr vs | PDict vs => forallb np vs
-  | PCompare l _ cs => np l && forallb np cs
-  | PCall f args kws => np f && forallb np args && forallb np kws
-  | PSubscript v _ sl => np v && np sl
-  | PSlice lo up st => no lo && no up && no st
-  | PDictItem k v => no k && np v
-  | PIfExp b t o => np b && np t && np o
-  | PLambda po pk _ ko _ body => forallb np po && forallb np pk && forallb np ko && np body
-  | PParam _ d => no d
-  | PNamedExpr t v => np t && np v
-  | PListComp e gens | PSetComp e gens | PGeneratorExp e gens => np e && forallb np gens
-  | PDictComp k v gens => np k && np v && forallb np gens
-  | PComprehension t it ifs _ => np t && np it && forallb np ifs
-  | PFormattedValue v _ spec => np v && no spec
-  | PYield v => no v
-  end.
-
-(* ---------- the string-annotation rule, declaratively ---------- *)
-Definition is_name_or_attr_src (e : pyexpr) : bool :=
-  match e with PName _ | PAttribute _ _ => true | _ => false end.
-
-(* m: are strings code here (Parse false), code-but-under-Literal (Parse true) or data (NoParse);
-   ijoin/ifmt: inside an f-string / inside a replacement field of one *)
-Fixpoint subst (m : pmode) (ijoin ifmt : bool) (e : pyexpr) {struct e} : pyexpr :=
-  let s := subst m ijoin ifmt in
-  let so := fun (o : option pyexpr) => match o with Some c => Some (s c) | None => None end in
-  match e with
-  | PName _ | PNum _ _ | PConst _ | PParsed _ => e
-  | PStr _ _ parsed =>
-      if ijoin && negb ifmt then e
-      else match m, parsed with Parse false, Some p => PParsed p | _, _ => e end
-  | PAttribute v a => PAttribute (s v) a
-  | PBinOp l o r => PBinOp (s l) o (s r)
-  | PBoolOp o vs => PBoolOp o (map s vs)
-  | PUnaryOp o v => PUnaryOp o (s v)
-  | PCompare l ops cs => PCompare (s l) ops (map s cs)
-  | PCall f args kws => PCall (s f) (map s args) (map s kws)
-  | PKeyword n v => PKeyword n (s v)
-  | PSubscript v lit sl =>
-      (* the subscripted value is never parsed; the slice is, unless the value is typing.Literal (sticky) *)
-      let m' := match m with
-                | NoParse => NoParse
-                | Parse l0 => Parse (l0 || (lit && is_name_or_attr_src v))
-                end in
-      PSubscript v lit (subst m' ijoin ifmt sl)
-  | PSlice lo up st => PSlice (so lo) (so up) (so st)
-  | PTuple es => PTuple (map s es)
-  | PList es => PList (map s es)
-  | PSet es => PSet (map s es)
-  | PDict items => PDict (map s items)
-  | PDictItem k v => PDictItem (so k) (s v)
-  | PIfExp b t o => PIfExp (s b) (s t) (s o)
-  | PLambda po pk vp ko vk body => PLambda po pk vp ko vk (s body)     (* defaults are never parsed *)
-  | PParam _ _ => e
-  | PNamedExpr t v => PNamedExpr (s t) (s v)
-  | PStarred v => PStarred (s v)
-  | PListComp e1 gens => PListComp (s e1) (map s gens)
-  | PSetComp e1 gens => PSetComp (s e1) (map s gens)
-  | PGeneratorExp e1 gens => PGeneratorExp (s e1) (map s gens)
-  | PDictComp k v gens => PDictComp (s k) (s v) (map s gens)
-  | PComprehension t it ifs a => PComprehension (s t) (s it) (map s ifs) a
-  | PJoinedStr vs => PJoinedStr (map (subst m true ifmt) vs)
-  | PFormattedValue v conv spec => PFormattedValue (subst m ijoin true v) conv spec
-  | PYield v => PYield (so v)
-  | PYieldFrom v => PYieldFrom (s v)
-  | PAwait v => PAwait (s v)
-  end.
 
 (* ---------- names of the source, in textual order (Name ids and attribute names) ---------- *)
 Fixpoint src_names (e : pyexpr) {struct e} : list string :=
@@ -410,36 +522,6 @@ Fixpoint src_names (e : pyexpr) {struct e} : list string :=
   | PFormattedValue v _ spec => sn v ++ so spec
   | PYield v => so v
   end.
-
-(* scan false e: e contains an await (no builder: _build raises);
-   scan true e:  ... or a format spec (never built), i.e. some sub-expression is dropped *)
-Fixpoint scan (sc : bool) (e : pyexpr) {struct e} : bool :=
-  let d := scan sc in
-  let dopt := fun (o : option pyexpr) => match o with Some c => d c | None => false end in
-  match e with
-  | PName _ | PNum _ _ | PConst _ | PStr _ _ _ => false
-  | PParsed p => d p
-  | PAwait _ => true
-  | PAttribute v _ | PUnaryOp _ v | PKeyword _ v | PStarred v | PYieldFrom v => d v
-  | PBinOp l _ r => d l || d r
-  | PBoolOp _ vs | PTuple vs | PList vs | PSet vs | PDict vs | PJoinedStr vs => existsb d vs
-  | PCompare l _ cs => d l || existsb d cs
-  | PCall f args kws => d f || existsb d args || existsb d kws
-  | PSubscript v _ sl => d v || d sl
-  | PSlice lo up st => dopt lo || dopt up || dopt st
-  | PDictItem k v => dopt k || d v
-  | PIfExp b t o => d b || d t || d o
-  | PLambda po pk _ ko _ body => existsb d po || existsb d pk || existsb d ko || d body
-  | PParam _ dd => dopt dd
-  | PNamedExpr t v => d t || d v
-  | PListComp e1 gens | PSetComp e1 gens | PGeneratorExp e1 gens => d e1 || existsb d gens
-  | PDictComp k v gens => d k || d v || existsb d gens
-  | PComprehension t it ifs _ => d t || d it || existsb d ifs
-  | PFormattedValue v _ spec => d v || (sc && match spec with Some _ => true | None => false end)
-  | PYield v => dopt v
-  end.
-Definition has_await (e : pyexpr) : bool := scan false e.
-Definition drops (e : pyexpr) : bool := scan true e.
 
 Definition item_names (l : list item) : list string :=
   flat_map (fun i => match i with IExpr (GName n _) => [n] | _ => [] end) l.
